@@ -13,7 +13,8 @@ EXPLANATION = (
     "UnregisterResend at now + 120 per non-empty packet, only on the first run, with a timer (F6); (f) the entry is "
     "removed before the reply and the resend handler does nothing for a missing service.  Decides these mechanisms, not "
     "what later queries observe over histories."
-    " (g) Purges of the rerun queue keep UnregisterResend and every other kind. (h) add_interface does not replace an existing DnsRegistry.")
+    " (g) Purges of the rerun queue keep UnregisterResend and every other kind. (h) add_interface does not replace an existing DnsRegistry."
+    " (i) The per-interface status is never reset to Unknown while the interface is in use.")
 UNDECIDED = ["what later queries observe over histories", "timing of the repeat on the wire"]
 
 
